@@ -17,15 +17,17 @@ CLAIMS = {
 
 
 _COMMON_NOTE = ('ASSUMED (never counted as proved, listed in evidence.trusted_base / assumed_contracts): pandas (DataFrame abstraction in '
-                'pyvc/pandas_model.py), py_stringmatching tokenizers and measures (contracts/externals.py), joblib Parallel, pyprind. '
+                'pyvc/pandas_model.py), py_stringmatching tokenizers and measures (contracts/externals.py), joblib Parallel, pyprind; '
+                'pure-mathematics lemmas about the specification functions (inj_image, two counting facts, the prefix principle and '
+                'its converse, two edit-distance facts: DESIGN.md 0.4). '
                 'BOUNDED stand-ins (exhaustive small scope + seeded random on the real code, evidence.bounded_standins): '
-                'gen_token_ordering_for_tables, order_using_token_ordering, PositionIndex.build, PositionFilter.find_candidates; '
-                'the lemma inj_image (injective ranks preserve intersection sizes) and two counting facts are assumed mathematics. '
-                'Scope: all six *_join_py entry points (Jaccard / cosine / Dice through set_sim_join; overlap; overlap coefficient; edit '
-                'distance) with InvertedIndex / OverlapFilter, SizeIndex / SizeFilter, PrefixIndex / PrefixFilter.find_candidates, '
-                'Filter.filter_candset, apply_matcher. filter_pair / filter_tables of PrefixFilter, PositionFilter and SuffixFilter are '
-                'not under contract (their part of the property is not decided by this check). Row-level equality of the parallel (n_jobs > 1) result with the serial one '
-                'is not derived. Cython twins are out of reach. Trusted: pyvc VC generator, z3/cvc5.')
+                'gen_token_ordering_for_tables, order_using_token_ordering, PositionFilter.find_candidates. '
+                'Scope: all six *_join_py entry points, set_sim_join, InvertedIndex / OverlapFilter, SizeIndex / SizeFilter, '
+                'PrefixIndex / PrefixFilter (find_candidates, filter_tables), PositionIndex / PositionFilter (filter_tables), '
+                'Filter.filter_candset, apply_matcher. Not under contract (their part of the property is not decided by this check): '
+                'SuffixFilter, filter_pair of PrefixFilter / PositionFilter, the OVERLAP / EDIT_DISTANCE modes of the Size / Prefix / '
+                'Position filter classes, the Cython twins, disk_edit_distance_join. Row-level equality of the parallel (n_jobs > 1) '
+                'result with the serial one is not derived. Trusted: pyvc VC generator, z3/cvc5.')
 
 CLAIMS.update({
     'C01': dict(
@@ -80,12 +82,13 @@ CLAIMS.update({
     'C04': dict(
         text='SizeFilter (JACCARD, COSINE, DICE) and OverlapFilter: filter_pair is proved never to drop a pair of present values whose '
              'similarity meets the threshold (SizeFilter: exact window characterisation + the proved safety theorem of the size bounds; '
-             'OverlapFilter: exact), _filter_tables_split / filter_tables are proved to list every such pair (ghost origin maps, '
-             'inductive invariants over SizeIndex / InvertedIndex), and filter_candset is proved to keep exactly the rows filter_pair '
-             'does not drop.',
-        note=_COMMON_NOTE + ' PrefixFilter, PositionFilter, SuffixFilter and the EDIT_DISTANCE / OVERLAP modes of SizeFilter are NOT '
-             'covered by this check (SuffixFilter has the recorded finding D2 in DESIGN.md).',
-        technique=TECH, design_ref='DESIGN.md 4 (C04)'),
+             'OverlapFilter: exact). filter_tables of SizeFilter, OverlapFilter, PrefixFilter and PositionFilter (set measures) are proved to '
+             'list every such pair and every admitted empty pair (ghost origin maps, inductive invariants over the proved index '
+             'structures), and filter_candset is proved to keep exactly the rows filter_pair does not drop.',
+        note=_COMMON_NOTE + ' PrefixFilter: the step from "prefixes share a rank" (proved exact) to "qualifying pairs are listed" uses the '
+             'assumed prefix principle; PositionFilter: its find_candidates is a bounded stand-in. SuffixFilter (recorded finding D2 in '
+             'DESIGN.md), filter_pair of Prefix/Position filters and the EDIT_DISTANCE / OVERLAP modes are NOT covered by this check.',
+        technique=TECH, design_ref='DESIGN.md 0.3, 4 (C04)'),
     'C05': dict(
         text='_apply_matcher_split is proved, for all six operators, with and without tokenizer, with and without token cache, to '
              'return exactly the candidate rows (original order: ghost source map strictly increasing and complete; original _id) for '
@@ -107,12 +110,15 @@ CLAIMS.update({
     'C14': dict(
         text='SizeFilter (set measures): filter_pair and filter_tables are proved to decide exactly by the size window '
              '[lb(x), ub(x)] of the two token counts (a function of the counts alone); OverlapFilter is proved to keep only pairs '
-             'with overlap comp_op overlap_size (hence a common token for overlap_size >= 1). Tightness of the window (no admitted '
-             'pair of counts has its best attainable similarity more than 1e-4 below the threshold) is a BOUNDED check on the real '
-             'get_size_lower_bound / get_size_upper_bound (all counts < 60 / 200, ~900 thresholds, seeded random), never counted as proved.',
-        note=_COMMON_NOTE + ' Known finding D11 (COSINE thresholds below 0.00707 admit an empty right value) is recorded. PrefixFilter / '
-             'PositionFilter (no-common-token and subset claims) and SizeFilter under EDIT_DISTANCE are NOT covered by this check.',
-        technique=TECH + '; window tightness: bounded exhaustive check', design_ref='DESIGN.md 4 (C14)'),
+             'with overlap comp_op overlap_size; PrefixFilter.filter_tables is proved to list exactly the pairs whose two prefixes share a '
+             'rank (hence a common token) or that are admitted empty pairs; PositionFilter.filter_tables is proved to list only pairs with '
+             'a common token whose left size lies in the size window of the right size (a subset of what SizeFilter keeps), or admitted '
+             'empty pairs. Tightness of the window (no admitted pair of counts has its best attainable similarity more than 1e-4 below '
+             'the threshold) is a BOUNDED check on the real get_size_lower_bound / get_size_upper_bound (all counts < 60 / 200, ~900 '
+             'thresholds, seeded random), never counted as proved.',
+        note=_COMMON_NOTE + ' Known finding D11 (COSINE thresholds below 0.00707 admit an empty right value) is recorded. The claim '
+             '"PositionFilter keeps a subset of PrefixFilter" is not derived; SizeFilter under EDIT_DISTANCE is not covered.',
+        technique=TECH + '; window tightness: bounded exhaustive check', design_ref='DESIGN.md 0.3, 4 (C14)'),
 })
 
 CLAIMS['C03'] = dict(
